@@ -1,6 +1,7 @@
 import DltypeModel
 import Spec
 import Proofs.Fuel
+import Proofs.RecogniserComplete
 namespace Dltype.C06
 open Dltype Dltype.Proofs
 
@@ -104,5 +105,22 @@ theorem two_markers_rejected (s : List Char) (dims : List DimExpr) (cls : Nat) (
     (hm : (markerIdxs dims 0).length > 1) : parseShape (some s) cls opt = .error (.parse .syntax) := by
   unfold parseShape
   simp [hs, hd, hm]
+
+/-- the judge of the correspondence run is exact: the independent recogniser says "not an expression of the
+    grammar" only for strings that no well-formed tree writes (completeness), and "expression" only for strings
+    some well-formed tree writes (soundness) -/
+theorem oracle_verdict_is_the_grammar (s : List Char) :
+    (Spec.recogniseExpr s = none ↔ ¬ ∃ t : Spec.Tree, t.WF = true ∧ t.str = s) := by
+  constructor
+  · rintro h ⟨t, hwf, rfl⟩
+    rw [recogniseExpr_complete t hwf] at h
+    cases h
+  · intro h
+    cases hr : Spec.recogniseExpr s with
+    | none => rfl
+    | some t =>
+      exfalso
+      obtain ⟨a, b⟩ := recogniseExpr_sound s t hr
+      exact h ⟨t, b, a⟩
 
 end Dltype.C06
